@@ -77,7 +77,7 @@ func startRaftNode(id uint64, address string, nodeIds []uint64, storage wal.WAL,
 		var peers []etcdRaft.Peer
 		for _, nodeId := range nodeIds {
 			peer := etcdRaft.Peer{ID: nodeId}
-			if nodeId == id {
+			if nodeId == id && address != "" {
 				// The bootstrap entry for this node must carry its address like
 				// every later join does: members rebuild their address book
 				// from these entries when they replay the log.
@@ -118,7 +118,14 @@ func NewRaftGroup(id uuid.UUID, nodeIds []uint64, storage wal.WAL, transport *Ra
 
 	storage = verifWrapWAL(transport.NodeId(), id, storage)
 	ctx, ctxCancel := context.WithCancel(context.Background())
-	raftNode, err := startRaftNode(transport.NodeId(), transport.Address(), nodeIds, storage, logger)
+	// Only the zero group's membership entries feed the address book. Partition
+	// groups are bootstrapped by all their members at once and must all write
+	// identical bootstrap entries.
+	address := ""
+	if uuid.Equal(id, uuid.Nil) {
+		address = transport.Address()
+	}
+	raftNode, err := startRaftNode(transport.NodeId(), address, nodeIds, storage, logger)
 	if err != nil {
 		return nil, err
 	}
